@@ -30,8 +30,13 @@ class Operand:
 
 
 class AbsOperand:
-    def __init__(self, op):
-        self.op = op
+    """k * |op| with k = +1 / -1"""
+
+    def __init__(self, op, k=1):
+        self.op, self.k = op, k
+
+    def __repr__(self):
+        return f"{'-' if self.k < 0 else ''}|{self.op.name}|"
 
 
 class Lin:
@@ -103,16 +108,21 @@ def decide(mod, qualname):
         agree = (sa == sb) or sa == "0"
 
         def binop(op, l, r, case=case, agree=agree):
+            if op == "Mult" and isinstance(l, int) and not isinstance(l, bool) and l in (1, -1) and isinstance(r, AbsOperand):
+                return AbsOperand(r.op, r.k * l)
+            if op == "Mult" and isinstance(r, int) and not isinstance(r, bool) and r in (1, -1) and isinstance(l, AbsOperand):
+                return AbsOperand(l.op, l.k * r)
             if op == "FloorDiv":
                 if isinstance(l, AbsOperand) and isinstance(r, AbsOperand) and l.op.name == "a" and r.op.name == "b":
-                    return Lin(0, 1, case)
+                    # |a| // |b| = Q ; floor(-|a| / |b|) = -Q - e  (e = 1 iff the division is inexact; a = 0 is exact)
+                    return Lin(0, 1, case) if l.k * r.k > 0 else Lin(-case["e"], -1, case)
                 if isinstance(l, Operand) and isinstance(r, Operand) and l.name == "a" and r.name == "b":
                     return Lin(0, 1, case) if agree else Lin(-case["e"], -1, case)
                 # mixed forms: floor(|a| / b) and floor(a / |b|) floor toward -inf when exactly one side is negative
                 if isinstance(l, AbsOperand) and isinstance(r, Operand) and l.op.name == "a" and r.name == "b":
-                    return Lin(0, 1, case) if case["sb"] == "+" else Lin(-case["e"], -1, case)
+                    return Lin(0, 1, case) if (case["sb"] == "+") == (l.k > 0) else Lin(-case["e"], -1, case)
                 if isinstance(l, Operand) and isinstance(r, AbsOperand) and l.name == "a" and r.op.name == "b":
-                    return Lin(0, 1, case) if case["sa"] in "+0" else Lin(-case["e"], -1, case)
+                    return Lin(0, 1, case) if (case["sa"] in "+0") == (r.k > 0) or case["sa"] == "0" else Lin(-case["e"], -1, case)
             if op == "Mod" and isinstance(l, Operand) and isinstance(r, Operand) and l.name == "a" and r.name == "b":
                 return Rem(case)
             if isinstance(l, Lin) and isinstance(r, int):
@@ -136,11 +146,15 @@ def decide(mod, qualname):
         def unop(op, v, case=case):
             if op == "USub" and isinstance(v, Lin):
                 return Lin(-v.c0, -v.c1, case)
+            if op == "USub" and isinstance(v, AbsOperand):
+                return AbsOperand(v.op, -v.k)
             raise AnalysisError(f"truncdiv domain: unary {op} on {v!r}")
 
         def abs_(x, case=case):
             if isinstance(x, Operand):
                 return AbsOperand(x)
+            if isinstance(x, AbsOperand):
+                return AbsOperand(x.op)
             if isinstance(x, Lin):
                 lo, hi = x.rng()
                 if lo is not None and lo >= 0:
